@@ -610,3 +610,85 @@ def r_byteindex(db, rep):
                 rep.viol("%s::%s#extent-in-%s" % (rec, fld, g.qn), g.nloc(w),
                          "%s creates %s::%s with %s entries, but %s indexes it with an arbitrary byte value (%s): bytes beyond the extent read "
                          "outside the allocation" % (g.qn, rec, fld, "a run-time number of" if size is None else size, f0.qn, f0.nloc(n0)), g.qn)
+
+
+@rule("R-REFCOUNT", 3, "a reference-counted object shared through a static pointer (use() / self-deleting unuse()): every constructor of a "
+                       "class whose destructor releases it acquires it exactly once on every path, and every release stores unuse()'s result "
+                       "back into the pointer (unuse() returns NULL after `delete this`; dropping it keeps a dangling pointer for the next user)")
+def r_refcount(db, rep):
+    def static_ptr(f, n):
+        s = strip(n)
+        if s["k"] == "DeclRefExpr" and s.get("dk") in ("staticmember", "global"):
+            return s.get("n")
+        return None
+    # self-deleting release functions: body contains `delete this`
+    releasers = set()
+    for f in db.funcs.values():
+        if f.body and f.name == "unuse":
+            if any(x["k"] == "CXXDeleteExpr" and strip(x["sub"])["k"] == "CXXThisExpr" for x in f.nodes()):
+                releasers.add(f.id)
+    if not releasers:
+        raise AnalysisBroken("no self-deleting unuse() found")
+    rel_sites, acq_sites = {}, {}
+    for f in db.funcs.values():
+        if not f.body:
+            continue
+        for c in f.calls():
+            if c["k"] != "CXXMemberCallExpr" or c.get("obj") is None:
+                continue
+            sp = static_ptr(f, c["obj"])
+            if sp is None:
+                continue
+            if c.get("f") in releasers:
+                rel_sites.setdefault(sp, []).append((f, c))
+            elif callee_name(c) == "use":
+                acq_sites.setdefault(sp, []).append((f, c))
+    for sp, rels in sorted(rel_sites.items()):
+        for f, c in rels:
+            rep.visit(f)
+            rep.inst(f.nloc(c), "%s releases %s" % (f.qn, sp))
+            rep.ob()
+            par = f.parent(c)
+            while par is not None and par["k"] in TRANSPARENT:
+                par = f.parent(par)
+            if not (par is not None and is_assignment(par) and par.get("op") == "=" and static_ptr(f, par["lhs"]) == sp):
+                rep.viol("%s#release-result-dropped:%s" % (f.qn, sp.split("::")[-1]), f.nloc(c),
+                         "%s calls %s->unuse() without storing the result back into %s: after the last user the object has deleted itself and "
+                         "the static pointer dangles; the next object built or loaded uses freed memory" % (f.qn, sp, sp), f.qn)
+        # owners: classes whose destructor releases sp -> every constructor acquires exactly once
+        owners = {f.rec for f, c in rels if f.is_dtor and f.rec}
+        for rec in sorted(owners):
+            for ctor in db.methods_of(rec):
+                if not ctor.is_ctor or not ctor.body or ctor.cfg is None:
+                    continue
+                rep.visit(ctor)
+                def acq_nodes(g, depth=0):
+                    out = [c for g2, c in acq_sites.get(sp, []) if g2.id == g.id]
+                    if depth < 3:
+                        for c in g.calls():
+                            h = db.funcs.get(c.get("f"))
+                            if h is None or h.body is None or h.cfg is None or h.id == g.id or c["k"] not in ("CallExpr", "CXXMemberCallExpr"):
+                                continue
+                            inner = [h.cfg.position(x) for x in acq_nodes(h, depth + 1)]
+                            inner = [q for q in inner if q is not None]
+                            if inner and not h.cfg.path_exists(h.cfg.entry, [h.cfg.exit], avoid=inner):
+                                out.append(c)
+                    return out
+                acqs = acq_nodes(ctor)
+                rep.inst(ctor.loc, "%s: %d acquisition(s) of %s" % (ctor.qn, len(acqs), sp))
+                rep.ob()
+                pos = [ctor.cfg.position(c) for c in acqs]
+                pos = [p for p in pos if p is not None]
+                # a delegating constructor acquires through its target
+                if any(i.get("delegating") for i in ctor.raw.get("inits", [])):
+                    continue
+                if not pos or ctor.cfg.path_exists(ctor.cfg.entry, [ctor.cfg.exit], avoid=pos):
+                    rep.viol("%s#no-acquire:%s" % (ctor.qn, sp.split("::")[-1]), ctor.loc,
+                             "%s can finish without %s->use() although %s::~%s releases it: the count drops below the number of live objects and "
+                             "the shared table is freed while still in use" % (ctor.qn, sp, rec, rec.split("::")[-1]), ctor.qn)
+                else:
+                    for p in pos:
+                        if ctor.cfg.path_exists(p, pos):
+                            rep.viol("%s#double-acquire:%s" % (ctor.qn, sp.split("::")[-1]), ctor.loc,
+                                     "%s can call %s->use() twice: the shared table is never released" % (ctor.qn, sp), ctor.qn)
+                            break
